@@ -719,7 +719,9 @@ def truncation_mask(S, tol=0, tol_block=0,
         Smask._data[:] = False
         return Smask
 
-    inds = S.config.backend.argsort(temp_data)
+    # elements discarded in blocks should not compete with (possibly negative) elements that are still kept
+    low = S.config.backend.max_abs(S._data) + 1
+    inds = S.config.backend.argsort(temp_data - low * S.config.backend.bitwise_not(Smask.data))
 
     if truncate_multiplets and D_total < len(inds):
         gap = -1
